@@ -937,6 +937,14 @@ fn choices_for(r: &mut Rng, durable: &[u8], pending: &[Op], k: usize, budget: us
         }
         // the classic adversarial images first (rotating over the crash points of a history so that a
         // small per-point budget still covers all of them), then one of each other kind, then the rest
+        // a pending set_len is rare and decisive: its two fates always come first
+        for p in ["setlen-only", "setlen-dropped"] {
+            if let Some(c) = out.iter().find(|c| c.kind == p) {
+                if kept.len() < budget && kinds.insert(p) {
+                    kept.push(c.clone());
+                }
+            }
+        }
         for i in 0..PRIORITY.len() {
             let p = PRIORITY[(rot + i) % PRIORITY.len()];
             if let Some(c) = out.iter().find(|c| c.kind == p) {
